@@ -57,6 +57,7 @@ def Inv(h, hole=None):
         'O1-list-objects-distinct': And(ForAll([t_, u_], Implies(And(t_ != null, u_ != null, t_ != u_), h.chl[t_] != h.chl[u_]), patterns=[MultiPattern(h.chl[t_], h.chl[u_])]),
                                         ForAll([t_, u_], Implies(And(t_ != null, u_ != null), And(h.chl[t_] != h.pre[u_], h.chl[t_] != h.suc[u_])), patterns=[MultiPattern(h.chl[t_], h.pre[u_]), MultiPattern(h.chl[t_], h.suc[u_])]),
                                         ForAll([t_], Implies(t_ != null, h.chl[t_] != LR.null), patterns=[h.chl[t_]])),
+        'O2-link-list-objects-exist': ForAll([t_], Implies(t_ != null, And(h.pre[t_] != LR.null, h.suc[t_] != LR.null)), patterns=[h.pre[t_], h.suc[t_]]),
         'N-null-has-no-parent': h.par[null] == null,
         'C11/W1-owner-follows-the-hierarchy': ForAll([t_, c_], Implies(Desc(h.par, t_, c_), h.own[c_] == h.own[t_]), patterns=[Desc(h.par, t_, c_)]),
         'C11/W1r-owner-only-if-reachable-from-that-WBS-root': ForAll([c_], Implies(And(c_ != null, h.own[c_] != W.null), insub(h.par, h.root[h.own[c_]], c_)), patterns=[h.own[c_]]),
@@ -66,6 +67,7 @@ def Inv(h, hole=None):
                                                       patterns=[MultiPattern(rootof(h.par, a_), rootof(h.par, b_))]),
         'C01/M1-links-symmetric': ForAll([a_, b_], Implies(And(a_ != null, b_ != null), mem(h.P(b_), a_) == mem(h.S(a_), b_)), patterns=[mem(h.P(b_), a_), mem(h.S(a_), b_)]),
         'NN-no-None-in-links': ForAll([t_, a_], Implies(And(t_ != null, Or(mem(h.P(t_), a_), mem(h.S(t_), a_))), a_ != null), patterns=[mem(h.P(t_), a_), mem(h.S(t_), a_)]),
+        'DR-reserved-id-marks-hidden-roots-only': ForAll([c_], Implies(And(c_ != null, h.tid[c_] == EMPTY), And(h.own[c_] != W.null, h.root[h.own[c_]] == c_)), patterns=[h.tid[c_]]),
         'hidden-roots-have-no-links': ForAll([w_, a_], Implies(w_ != W.null, And(Not(mem(h.P(h.root[w_]), a_)), Not(mem(h.S(h.root[w_]), a_)))), patterns=[mem(h.P(h.root[w_]), a_), mem(h.S(h.root[w_]), a_)]),
     }
 
@@ -138,9 +140,41 @@ def c_has_id_intersection(eng, st, recv, args, kws, node):
     return [(st, V(clashfn(args[0].e, child, h), BOOL))]
 
 
+def forest_struct(h, t):
+    """pre-condition of the closure helpers of the hierarchy (contracts/closure.py): the forest part of Inv, F2 for the tasks below t"""
+    I = Inv(h)
+    return And(Acyc(h.par), h.par[null] == null, I['C01/F1-listed-child-reports-that-parent'], F2below(h, t), I['C01/F3-no-child-listed-twice'],
+               ForAll([t_], Implies(t_ != null, h.chl[t_] != LR.null), patterns=[h.chl[t_]]))
+
+
+def up_struct(h):
+    """pre-condition of all_parents: acyclic, and the reserved id only on parentless tasks (from DR + WR)"""
+    return And(Acyc(h.par), h.par[null] == null, ForAll([c_], Implies(And(c_ != null, h.tid[c_] == EMPTY), h.par[c_] == null), patterns=[h.tid[c_]]))
+
+
+def F2below(h, t):
+    """F2 for the tasks below t (what the closure of t's descendants reads; the parent setter runs while ITS OWN entry in its parent's list may be missing)"""
+    return ForAll([c_], Implies(And(c_ != null, h.par[c_] != null, Desc(h.par, t, c_)), mem(h.ch(h.par[c_]), c_)), patterns=[Desc(h.par, t, c_)])
+
+
+def oblige_struct(st, h, who, line, up=False, forest=True, below=None):
+    """the callee's structural pre-condition, obliged clause by clause (each is a clause of the caller's invariant: one small query each)"""
+    I = Inv(h)
+    st.oblige(f'req@{who}/C01/F4-no-task-is-its-own-ancestor', Acyc(h.par), f'@{line}'); st.oblige(f'req@{who}/N-null-has-no-parent', h.par[null] == null, f'@{line}')
+    if forest:
+        for lab in ('C01/F1-listed-child-reports-that-parent', 'C01/F3-no-child-listed-twice'): st.oblige(f'req@{who}/{lab}', I[lab], f'@{line}')
+        st.oblige(f'req@{who}/C01/F2-parent-lists-its-child(below-the-task)', F2below(h, below), f'@{line}')
+        st.oblige(f'req@{who}/children-list-objects-exist', ForAll([t_], Implies(t_ != null, h.chl[t_] != LR.null), patterns=[h.chl[t_]]), f'@{line}')
+    if up:
+        st.oblige(f'req@{who}/DR-reserved-id-only-on-parentless-tasks', ForAll([c_], Implies(And(c_ != null, h.tid[c_] == EMPTY), h.par[c_] == null), patterns=[h.tid[c_]]), f'@{line}')
+
+
 def c_all_children(eng, st, recv, args, kws, node):
+    # contract of Task.all_children, proved in contracts/closure.py (there also: depth-first order, each once); the part used here: exactly the strict descendants
+    h = H(eng, st)
+    st.oblige('req@all_children/task-non-null', recv.e != null, f'@{node.lineno}'); oblige_struct(st, h, 'all_children', node.lineno, below=recv.e)
     A = fresh('allch', LT)
-    st.assume(ForAll([x], mem(A, x) == Desc(H(eng, st).par, recv.e, x), patterns=[mem(A, x)]))      # assumed contract of __get_all_children (B): exactly the strict descendants
+    st.assume(ForAll([x], mem(A, x) == Desc(h.par, recv.e, x), patterns=[mem(A, x)]))
     return [(st, V(A, LT))]
 
 
@@ -163,7 +197,15 @@ def c_attach(eng, st, recv, args, kws, node):
 
 
 def c_check_links(eng, st, recv, args, kws, node):
+    # contract of _check_no_links_to_ancestors, proved in contracts/closure.py
     h = H(eng, st); s, p = args[0].e, args[1].e
+    st.oblige('req@_check_no_links_to_ancestors/tasks-non-null', And(s != null, p != null), f'@{node.lineno}')
+    oblige_struct(st, h, '_check_no_links_to_ancestors', node.lineno, up=True, below=s)
+    st.oblige('req@_check_no_links_to_ancestors/link-list-objects-exist', ForAll([t_], Implies(t_ != null, h.pre[t_] != LR.null), patterns=[h.pre[t_]]), f'@{node.lineno}')
+    st.oblige('req@_check_no_links_to_ancestors/link-list-objects-exist(successors)', ForAll([t_], Implies(t_ != null, h.suc[t_] != LR.null), patterns=[h.suc[t_]]), f'@{node.lineno}')
+    st.oblige('req@_check_no_links_to_ancestors/reserved-id-tasks-are-not-linked',
+              ForAll([t_, a_], Implies(And(t_ != null, h.tid[a_] == EMPTY), And(Not(mem(h.P(t_), a_)), Not(mem(h.S(t_), a_)))), patterns=[mem(h.P(t_), a_), mem(h.S(t_), a_)]), f'@{node.lineno}')
+    st.oblige('req@_check_no_links_to_ancestors/NN-no-None-in-links', Inv(h)['NN-no-None-in-links'], f'@{node.lineno}')
     ok = st.fork(Not(links_cross(h, s, p))); exc = st.fork(links_cross(h, s, p))
     ta, an = Consts('ta_ an_', T.z)
     # reveal (definition, contrapositive): no task of the subtree is linked with p or one of its ancestors
@@ -363,12 +405,14 @@ def link_setter_unit(side):
 
         def c_all_parents(eng, st, recv, args, kws, node):
             A = fresh('parents', LT); h = H(eng, st)
-            st.assume(ForAll([x], mem(A, x) == And(Desc(h.par, x, recv.e), h.tid[x] != EMPTY), patterns=[mem(A, x)]))       # assumed contract of __get_all_parents (B)
+            st.oblige('req@all_parents/task-non-null', recv.e != null, f'@{node.lineno}'); oblige_struct(st, h, 'all_parents', node.lineno, up=True, forest=False)
+            st.assume(ForAll([x], mem(A, x) == And(Desc(h.par, x, recv.e), h.tid[x] != EMPTY), patterns=[mem(A, x)]))       # contract of all_parents (proved in contracts/closure.py)
             return [(st, V(A, LT))]
 
         def c_all_links(eng, st, recv, args, kws, node):
-            A = fresh('alllinks', LT)
-            st.assume(ForAll([x], mem(A, x) == TCp(st.ghost['E'], x, recv.e), patterns=[mem(A, x)]))       # assumed contract of __get_all_predecessors/_successors (B)
+            A = fresh('alllinks', LT); hh = H(eng, st); LL = LInv(hh, st.ghost['E'])
+            st.oblige('req@all_links/dependency-lists', And(recv.e != null, LL['SYNC-ghost-relation-mirrors-the-lists'], LL['NN-no-None-in-links'], LL['O1-list-objects-distinct'], LL['C01/M2-dependency-relation-acyclic']), f'@{node.lineno}')
+            st.assume(ForAll([x], mem(A, x) == And(x != null, TCp(st.ghost['E'], x, recv.e)), patterns=[mem(A, x)]))       # contract of all_predecessors / all_successors (proved in contracts/closure.py)
             return [(st, V(A, LT))]
         contracts = {'fn:_to_list': c_to_list, 'fn:_check_no_nones_in_list': c_none, 'prop:Task.all_parents': c_all_parents, 'prop:Task.all_children': c_all_children,
                      'prop:Task.all_predecessors': c_all_links, 'prop:Task.all_successors': c_all_links, 'prop:Task.id': c_id}
@@ -429,6 +473,7 @@ def link_setter_unit(side):
         fc = {'sig': {'self': T, 'value': LT}, 'ghost': {'E': S('REL', REL)},
               'requires': [(l_, (lambda l_: lambda c: LInv(hc(c), Ec(c))[l_])(l_)) for l_ in LABS] +
                           [('self-non-null', lambda c: me(c) != null), ('C01/F4-no-task-is-its-own-ancestor', lambda c: And(Acyc(hc(c).par), hc(c).par[null] == null)),
+                           ('C01/F1-F3-children-lists-mirror-the-parents', lambda c: forest_struct(hc(c), me(c))), ('DR-reserved-id-only-on-parentless-tasks', lambda c: up_struct(hc(c))),
                            ('hidden-root-has-reserved-id', lambda c: ForAll([w_], Implies(w_ != W.null, And(hc(c).root[w_] != null, hc(c).tid[hc(c).root[w_]] == EMPTY, hc(c).par[hc(c).root[w_]] == null)), patterns=[hc(c).root[w_]])),
                            ],
               'loops': {0: {'fingerprint': fps[0], 'invariant': [('checked-so-far', inv_L0)]},
@@ -443,7 +488,10 @@ def link_setter_unit(side):
                           ('C16/same-side-lists-of-all-other-tasks-unchanged', lambda c: ForAll([t_], Implies(And(t_ != null, t_ != me(c)), M(hc(c), t_) == M(h0(c), t_)))),
                           ('C16/mirror-side-updated-for-exactly-this-task', lambda c: ForAll([a_, b_], Implies(a_ != null, mem(O(hc(c), a_), b_) == If(b_ == me(c), mem(v0(c), a_), mem(O(h0(c), a_), b_))))),
                           ('C16/hierarchy-untouched', lambda c: And(hc(c).par == h0(c).par, hc(c).chl == h0(c).chl, ForAll([t_], Implies(t_ != null, hc(c).ch(t_) == h0(c).ch(t_))))),
-                          ('C01/accepted-only-if-no-reason-to-reject', lambda c: Not(rc(c)))]}
+                          ('C01/accepted-only-if-no-reason-to-reject/not-the-task-itself', lambda c: ForAll([x], Implies(mem(v0(c), x), x != me(c)))),
+                          ('C01/accepted-only-if-no-reason-to-reject/not-an-ancestor', lambda c: ForAll([x], Implies(mem(v0(c), x), Not(Desc(h0(c).par, x, me(c)))))),
+                          ('C01/accepted-only-if-no-reason-to-reject/not-a-descendant', lambda c: ForAll([x], Implies(mem(v0(c), x), Not(Desc(h0(c).par, me(c), x))))),
+                          ('C01/accepted-only-if-no-reason-to-reject/closes-no-cycle', lambda c: ForAll([x], Implies(mem(v0(c), x), Not(TCp(E0(c), me(c), x)))))]}
         return Engine(F, f'Task.{pname}.setter', contracts, TASK_CLASSES, fc, plugins=[LinkPlugin(side)]), LIST_AX + GRAPH_AX + DEP_AX
     return Unit(f'Task.{pname}.setter', F, build, ['C01', 'C15', 'C16'], timeout_ms=15000)
 
@@ -953,6 +1001,7 @@ def link_setter_call(eng, st, side, me, V_, line):
     for lab, g in LInv_side(side, h0, E0).items(): st.oblige(f'req@link.setter/{lab}', g, f'@{line}')
     st.oblige('req@link.setter/C01/F4-no-task-is-its-own-ancestor', And(Acyc(h0.par), h0.par[null] == null), f'@{line}')
     st.oblige('req@link.setter/hidden-root-has-reserved-id', ForAll([w_], Implies(w_ != W.null, And(h0.root[w_] != null, h0.tid[h0.root[w_]] == EMPTY, h0.par[h0.root[w_]] == null)), patterns=[h0.root[w_]]), f'@{line}')
+    oblige_struct(st, h0, 'link.setter', line, up=True, below=me)
     st.oblige('req@link.setter/value-of-public-non-None-tasks', And(me != null, ForAll([x], Implies(mem(V_, x), And(x != null, h0.tid[x] != EMPTY)))), f'@{line}')
     rc = Exists([x], And(mem(V_, x), Or(x == me, Desc(h0.par, x, me), Desc(h0.par, me, x), TCp(E0, me, x))))
     exc = st.fork(rc); ok = st.fork(Not(rc))
@@ -1046,6 +1095,7 @@ def link_facade_unit(side, op):
                [('facade-of-a-public-task', lambda c: And(c['self'] != LFAC.null, par_(c) != null, fl(c) == mref(hc(c), par_(c)), hc(c).tid[par_(c)] != EMPTY, Implies(c['task'] != null, hc(c).tid[c['task']] != EMPTY),
                                                         ForAll([x], Implies(mem(M(hc(c), par_(c)), x), hc(c).tid[x] != EMPTY), patterns=[mem(M(hc(c), par_(c)), x)]))),
                 ('C01/F4-no-task-is-its-own-ancestor', lambda c: And(Acyc(hc(c).par), hc(c).par[null] == null)),
+                ('C01/F1-F3-children-lists-mirror-the-parents', lambda c: forest_struct(hc(c), me(c))), ('DR-reserved-id-only-on-parentless-tasks', lambda c: up_struct(hc(c))),
                 ('hidden-root-has-reserved-id', lambda c: ForAll([w_], Implies(w_ != W.null, And(hc(c).root[w_] != null, hc(c).tid[hc(c).root[w_]] == EMPTY, hc(c).par[hc(c).root[w_]] == null)), patterns=[hc(c).root[w_]]))]
         unchanged = lambda c: And(hc(c).elems == h0(c).elems, hc(c).pre == h0(c).pre, hc(c).suc == h0(c).suc, hc(c).par == h0(c).par)
         ens = [(l_, (lambda l_: lambda c: LInv_side(side, hc(c), c.st.ghost['E'])[l_])(l_)) for l_ in LINK_LABS]
